@@ -204,6 +204,25 @@ def check(denses, commons, N, acc, base, only_call=None):
                         break
             except Exception as e:  # noqa
                 acc.violation("xcube:%s:repeated-evaluation:raised" % agg, case, repr(e))
+        if call in pipeline_calls and scaffold:
+            # the same cube evaluated with its worker pool switched on (the real thread pool, default size and more workers than blocks): one
+            # block per task must still be every block. Schedules are left to the OS here; C16 explores them.
+            for kind in full:
+                for ps in ((None, 7) if call == menu[0] else (None,)):
+                    try:
+                        f2, _, _, _, w2, _, _ = c03.realise(N, ws, fs)
+                        cube = ccube([M.build_index(d, c) for d, c in zip(denses, commons)], interacting_shape=shape) if kind == "ccube" else xcube(denses, interacting_shape=shape)
+                        cube.parallel = True
+                        if ps is not None:
+                            cube.poolsize = ps
+                        rp = Q.normalise(Q.call_cube(cube, agg, f2, w2, ignore, Q.NaN), Q.NaN)
+                    except Exception as e:  # noqa
+                        acc.violation("%s:%s:pooled-raised" % (kind, agg), dict(case, poolsize=ps), repr(e))
+                        continue
+                    acc.count("pooled_evals")
+                    msg = eq(rp, full[kind], grand)
+                    if msg:
+                        acc.violation("%s:%s:pooled-blocks" % (kind, agg), dict(case, poolsize=ps), "evaluated with the worker pool on (poolsize %s) vs serially: %s" % (ps or "default", msg))
         if len(full) == 2:
             msg = eq(full["ccube"], full["xcube"], grand)
             if msg:
